@@ -298,6 +298,10 @@ pub struct EnumSpec {
     pub disc_opts: Option<DiscOpts>,
     /// emitted `const BASE: <repr> = <value>` referenced by discriminant expressions
     pub base_const: Option<i128>,
+    /// harmless enum-level attributes interleaved with derive / repr / strum attributes:
+    /// (slot, text); slot 0 = before derive, 1 = after derive, 2 = after repr, 3 = after #[strum], 4 = last
+    #[serde(default)]
+    pub noise: Vec<(u8, String)>,
 }
 
 impl EnumSpec {
@@ -316,6 +320,7 @@ impl EnumSpec {
             variants: vec![],
             disc_opts: None,
             base_const: None,
+            noise: vec![],
         }
     }
     pub fn eattrs(&self) -> impl Iterator<Item = &EAttr> {
